@@ -19,7 +19,7 @@ try:
     import mpmath
     from mpmath import iv as _iv
 
-    _iv.dps = 40
+    _iv.dps = 25
 except Exception:  # pragma: no cover
     mpmath = None
     _iv = None
@@ -835,39 +835,42 @@ def sv_cbrt(a: SV) -> SV:
 # ---------------------------------------------------------------------------------
 # Ackermannised transcendental functions
 # ---------------------------------------------------------------------------------
-def _iv_to_fr(x):
-    return Fr(str(mpmath.mpf(x)))  # exact: mpf -> decimal string may round; use ratio
-
-
-def _mpf_fr(m):
-    man, exp = mpmath.mpf(m).man_exp if hasattr(mpmath.mpf(m), "man_exp") else (None, None)
-    if man is None:
-        return Fr(float(m))
-    sign = -1 if mpmath.mpf(m) < 0 else 1
-    man = abs(int(man))
-    return sign * (Fr(man) * (Fr(2) ** int(exp)))
+def _raw_fr(raw):
+    sign, man, exp, _bc = raw
+    v = Fr(int(man)) * (Fr(2) ** int(exp))
+    return -v if sign else v
 
 
 def enclosure(fn_name, *args_fr):
     """Rational enclosure [lo, hi] of a transcendental function at rational points."""
     if _iv is None:
         raise HarnessError("mpmath not available")
-    f = {
-        "exp": _iv.exp,
-        "log": _iv.log,
-        "sin": _iv.sin,
-        "cos": _iv.cos,
-        "exp10": lambda x: _iv.exp(x * _iv.log(10)),
-        "log10": lambda x: _iv.log(x) / _iv.log(10),
-        "pow": lambda x, y: _iv.exp(y * _iv.log(x)),
-        "atan": _iv.atan,
-        "acos": lambda x: _iv.pi / 2 - _iv.atan(x / _iv.sqrt(1 - x * x)) if abs(x) < 1 else None,
-        "tan": _iv.tan,
-    }[fn_name]
     xs = [_iv.mpf(a.numerator) / _iv.mpf(a.denominator) for a in args_fr]
-    r = f(*xs)
-    lo, hi = _mpf_fr(r.a), _mpf_fr(r.b)
-    return lo, hi
+    if fn_name == "exp":
+        r = _iv.exp(xs[0])
+    elif fn_name == "log":
+        r = _iv.log(xs[0])
+    elif fn_name == "sin":
+        r = _iv.sin(xs[0])
+    elif fn_name == "cos":
+        r = _iv.cos(xs[0])
+    elif fn_name == "exp10":
+        r = _iv.exp(xs[0] * _iv.log(10))
+    elif fn_name == "log10":
+        r = _iv.log(xs[0]) / _iv.log(10)
+    elif fn_name == "pow":
+        r = _iv.exp(xs[1] * _iv.log(xs[0]))
+    elif fn_name == "tan":
+        r = _iv.tan(xs[0])
+    else:
+        raise HarnessError("no enclosure for " + fn_name)
+    a, b = r._mpi_
+    return _raw_fr(a), _raw_fr(b)
+
+
+def _mpf_fr(x):
+    """lower endpoint of an interval value as an exact rational (use with .a / .b endpoints)"""
+    return _raw_fr(x._mpi_[0])
 
 
 def _opaque(name, *xs):
@@ -898,20 +901,17 @@ def uf_apply(fam, args, guard=None):
     # numeric enclosure when every argument is a rational constant
     if all(z3.is_rational_value(a) for a in args):
         frs = [Fr(a.numerator_as_long(), a.denominator_as_long()) for a in args]
-        try:
-            ok = True
-            if fam in ("log", "log10") and frs[0] <= 0:
-                ok = False
-            if fam == "pow" and frs[0] <= 0:
-                ok = False
-            if ok:
-                lo, hi = enclosure(fam, *frs)
-                if lo == hi:
-                    C.fact(r == rv(lo))
-                else:
-                    C.fact(r >= rv(lo), r <= rv(hi))
-        except Exception:
-            pass
+        ok = fam in _UF_FLOAT
+        if fam in ("log", "log10") and frs[0] <= 0:
+            ok = False
+        if fam == "pow" and frs[0] <= 0:
+            ok = False
+        if ok:
+            lo, hi = enclosure(fam, *frs)
+            if lo == hi:
+                C.fact(r == rv(lo))
+            else:
+                C.fact(r >= rv(lo), r <= rv(hi))
     return r
 
 
@@ -1059,7 +1059,7 @@ def _special(pic: Fr):
         c = C.named(f"cospi_{p.numerator}_{p.denominator}", math.cos(math.pi * float(p)))
         x = _iv.pi * _iv.mpf(p.numerator) / _iv.mpf(p.denominator)
         si, ci = _iv.sin(x), _iv.cos(x)
-        C.fact(s * s + c * c == 1, s >= rv(_mpf_fr(si.a)), s <= rv(_mpf_fr(si.b)), c >= rv(_mpf_fr(ci.a)), c <= rv(_mpf_fr(ci.b)))
+        C.fact(s * s + c * c == 1, s >= rv(_raw_fr(si._mpi_[0])), s <= rv(_raw_fr(si._mpi_[1])), c >= rv(_raw_fr(ci._mpi_[0])), c <= rv(_raw_fr(ci._mpi_[1])))
         C.consts[key] = (s, c)
     return C.consts[key]
 
